@@ -274,6 +274,17 @@ def _worker(args):
             "sub": sub_name,
             "harness_error": f"{type(e).__name__}: {e}\n{traceback.format_exc()}",
         }
+    finally:
+        _cleanup_scratch()
+
+
+def _cleanup_scratch():
+    mod = sys.modules.get("vf.fa")
+    if mod is not None:
+        try:
+            mod.cleanup()
+        except Exception:  # noqa: BLE001
+            pass
 
 
 def _run_hyp(sub, tier, seed_value, nshards, rec, handle):
@@ -417,6 +428,7 @@ def run_property(mod, tier, only=None):
                 print(f"INCONCLUSIVE property={mod.ID}: wall-clock cap {limit}s hit")
                 return 2
 
+    _cleanup_scratch()
     per_sub = {}
     for r in results:
         if "harness_error" in r:
